@@ -26,7 +26,7 @@ type C15Op struct {
 	P     []string `json:"p,omitempty"`  // prefixes
 	NP    []string `json:"np,omitempty"` // not-prefixes
 	FailN int      `json:"fail_n,omitempty"`
-	N     int      `json:"n,omitempty"` // setlogburst: number of logged updates of A in a row
+	N     int      `json:"n,omitempty"`   // setlogburst: number of logged updates of A in a row
 	Via   string   `json:"via,omitempty"` // rename / copy: "helper" = through ref.RenameRef / ref.CopyRef (what `wrgl branch --move / --copy` call), which also hand back the value
 }
 
@@ -49,6 +49,12 @@ var c15Names = []string{
 	"heads/\U0001F680", "heads/a\U0001F680", "remotes/o/\U0001F680x", "tags/t\uffffz", "remotes/\U0001F680/x",
 }
 var c15Prefixes = []string{"", "heads/", "heads/a", "heads/a_", "heads/a%", "heads/A", "remotes/", "remotes/o/", "remotes/o_/", "remotes/o%/", "remotes/O", "tags/", "tags/t", "tags/t_", "txs/", "txs/" + c15tx1 + "/", "h", "x", "remotes/b\u00fcro/", "remotes/b\u00fc", "heads/\u00e9", "tags/\u65e5"}
+
+// neighbours of the multi-byte characters above: \u00ea \u00eb follow \u00e9, \u65e6 follows \u65e5, \u00fd follows \u00fc,
+// U+1F681 follows U+1F680, \u0080 follows DEL
+var c15Siblings = []string{"heads/\u00e9", "heads/\u00ea-1", "heads/\u00eb/x", "heads/\u00e9/y", "tags/\u65e5", "tags/\u65e6/v1", "tags/\u65e5\u672c", "remotes/b\u00fd/x", "remotes/b\u00fc/x",
+	"remotes/\U0001F681/main", "remotes/\U0001F680/x", "heads/q\u007f", "heads/q\u0080", "heads/q\u007fz"}
+var c15SiblingPrefixes = []string{"heads/\u00e9", "tags/\u65e5", "remotes/b\u00fc", "remotes/\U0001F680", "heads/q\u007f", "heads/\u00ea"}
 var c15Remotes = []string{"o", "o_", "oX", "O", "O_", "o%", "ob", "zz", "b\u00fcro", "b\u00fc", "\U0001F680"}
 
 func init() {
@@ -72,14 +78,14 @@ func init() {
 					op = C15Op{Op: "del", A: name()}
 				case x < 52:
 					op = C15Op{Op: "rename", A: name(), B: name()}
-				if r.Sub(fmt.Sprintf("via-%d", i)).Chance(0.4) {
-					op.Via = "helper"
-				}
+					if r.Sub(fmt.Sprintf("via-%d", i)).Chance(0.4) {
+						op.Via = "helper"
+					}
 				case x < 58:
 					op = C15Op{Op: "copy", A: name(), B: name()}
-				if r.Sub(fmt.Sprintf("via-%d", i)).Chance(0.4) {
-					op.Via = "helper"
-				}
+					if r.Sub(fmt.Sprintf("via-%d", i)).Chance(0.4) {
+						op.Via = "helper"
+					}
 				case x < 63:
 					op = C15Op{Op: "get", A: name()}
 				case x < 75:
@@ -120,7 +126,35 @@ func init() {
 						op.FailN = r.Range(1, 9)
 					}
 				}
+				if rs := r.Sub(fmt.Sprintf("sibling-%d", i)); rs.Chance(0.12) {
+					// names whose last character is a neighbouring code point of a prefix's last character
+					// (same UTF-8 lead bytes, next continuation byte): a prefix is a string of bytes, not a
+					// range of characters. A sub-stream, so that the plans of earlier versions stay as they were.
+					switch op.Op {
+					case "set", "setlog", "del", "get", "logread":
+						op.A = Pick(rs, c15Siblings)
+					case "rename", "copy":
+						op.B = Pick(rs, c15Siblings)
+					case "filter", "filterkey":
+						op.P = append(op.P, Pick(rs, c15SiblingPrefixes))
+						if rs.Chance(0.3) {
+							op.NP = append(op.NP, Pick(rs, c15SiblingPrefixes))
+						}
+					}
+				}
 				p.Ops = append(p.Ops, op)
+			}
+			if rs := r.Sub("siblings-first"); rs.Chance(0.15) {
+				// a few siblings exist from the start
+				var pre []C15Op
+				for k := rs.Range(2, 5); k > 0; k-- {
+					pre = append(pre, C15Op{Op: Pick(rs, []string{"set", "setlog"}), A: Pick(rs, c15Siblings)})
+				}
+				p.Ops = append(pre, p.Ops...)
+				if len(p.Ops) > 40 {
+					p.Ops = p.Ops[:40]
+				}
+				p.Ops = append(p.Ops, C15Op{Op: "filterkey", P: []string{Pick(rs, c15SiblingPrefixes)}}, C15Op{Op: "filter", P: []string{Pick(rs, c15SiblingPrefixes)}})
 			}
 			return p
 		},
